@@ -18,7 +18,7 @@ CONSTANTS
   ExpFilters = {}
   WithWalFaults = TRUE
   WithStop = TRUE
-  TimeoutTypes = {"R", "C", "G", "L", "K", "U", "R1", "R2", "C1", "C2", "G1", "E", "E2", "T", "P", "T0", "T1", "T2", "T3"}
+  TimeoutTypes = {"R", "C", "G", "L", "K", "U", "S", "Q", "V", "W", "Z", "M", "W1", "W2", "W3", "R1", "R2", "C1", "C2", "G1", "E", "E2", "T", "P", "T0", "T1", "T2", "T3"}
   KeepLog = FALSE
 INVARIANT Book
 POSTCONDITION Post
